@@ -784,20 +784,29 @@ func runCTORVERBATIM(c *Ctx) {
 // ===========================================================================
 // PREFIXIDENT
 
+// prefixInjective is the ALLOW-list of calls through which the identity string
+// may pass: each is injective in its (first) operand, so two different
+// components never yield the same text. filepath.Abs is the one exception by
+// design: it maps the names of one directory to one canonical name (the file
+// store's base path is fixed that way at construction). Anything not listed —
+// path.Join, filepath.Join/Clean/Base/Dir, strings.Trim*/ToLower/Replace*,
+// hashes, … — is "not known to be injective" and reported.
 var prefixInjective = map[string]bool{
-	"path/filepath.Clean": true, "path/filepath.ToSlash": true, "path/filepath.FromSlash": true, "path.Clean": true,
-	"net/url.PathEscape": true, "net/url.QueryEscape": true, "strconv.Quote": true, "encoding/hex.EncodeToString": true,
-	"path/filepath.Abs": true, "path/filepath.Join": true, "path.Join": true,
-	"strconv.Itoa": true, "strconv.FormatUint": true, "strconv.FormatInt": true,
+	"strconv.Itoa": true, "strconv.FormatUint": true, "strconv.FormatInt": true, "strconv.Quote": true,
+	"net/url.PathEscape": true, "net/url.QueryEscape": true,
+	"encoding/hex.EncodeToString": true, "(*encoding/base64.Encoding).EncodeToString": true,
+	"path/filepath.Abs": true,
 }
 
+// prefixLossy: calls known to keep only part of their operand or to fold
+// distinct operands together (named in the message; everything unlisted is
+// reported as well).
 var prefixLossy = map[string]bool{
 	"path/filepath.Base": true, "path.Base": true, "path/filepath.Ext": true, "path.Ext": true, "path/filepath.VolumeName": true,
-	"path/filepath.Dir": true, "path.Dir": true,
+	"path/filepath.Dir": true, "path.Dir": true, "path/filepath.Clean": true, "path.Clean": true, "path/filepath.Join": true, "path.Join": true,
 	"strings.TrimSuffix": true, "strings.TrimPrefix": true, "strings.Trim": true, "strings.TrimLeft": true, "strings.TrimRight": true,
 	"strings.TrimSpace": true, "strings.ToLower": true, "strings.ToUpper": true, "strings.Title": true, "strings.Replace": true,
 	"strings.ReplaceAll": true, "strings.Split": true, "strings.SplitN": true, "strings.Fields": true, "strings.Map": true,
-	"strings.Repeat": false,
 }
 
 type prefixCheck struct {
@@ -812,7 +821,8 @@ type prefixCheck struct {
 	// helpers being followed: their parameters stand for the arguments of the call
 	bind   map[*ssa.Parameter]prefixArg
 	inCall map[*ssa.Function]bool
-	exIdx  int // result position selected by the enclosing Extract
+	exIdx  int                     // result position selected by the enclosing Extract
+	params map[*ssa.Parameter]bool // constructor parameters that flow into the identity
 }
 
 type prefixArg struct {
@@ -863,6 +873,10 @@ func (pc *prefixCheck) value(v ssa.Value, ri *recvInfo, d int) {
 			}
 		}
 		pc.srcs++ // a configuration parameter of a constructor
+		if pc.params == nil {
+			pc.params = map[*ssa.Parameter]bool{}
+		}
+		pc.params[x] = true
 		return
 	case *ssa.Global:
 		pc.addr = append(pc.addr, "the address of package-level variable "+x.Name())
@@ -975,7 +989,7 @@ func (pc *prefixCheck) value(v ssa.Value, ri *recvInfo, d int) {
 				}
 			}
 		case prefixLossy[id]:
-			pc.bad = append(pc.bad, callName(x)+" (keeps only part of its operand, or folds distinct operands together)")
+			pc.bad = append(pc.bad, callName(x)+" (keeps only part of its operand, or maps distinct operands to the same text: e.g. Join/Clean drop a trailing slash and collapse dots)")
 		case prefixInjective[id]:
 			for _, a := range args {
 				if el := variadicElems(a); el != nil {
@@ -1020,7 +1034,7 @@ func (pc *prefixCheck) value(v ssa.Value, ri *recvInfo, d int) {
 				}
 				return
 			}
-			pc.und = append(pc.und, "a call of "+callName(x)+", of which the rule does not know whether it is injective")
+			pc.bad = append(pc.bad, "a call of "+callName(x)+", which is not known to be injective (the identity may only be assembled by concatenation, full-width fmt verbs, strconv formatters and URL/hex escaping)")
 		}
 	case *ssa.Alloc:
 		pc.addr = append(pc.addr, "the address of a local value")
@@ -1196,12 +1210,25 @@ func runPREFIXIDENT(c *Ctx) {
 			}
 		}
 		ri := newRecvInfo(pfx)
+		reached := map[*ssa.Parameter]bool{}
+		clean := true
+		defer func(b backendImpl, pfx *ssa.Function) {
+			if clean {
+				prefixCoversCtorParams(c, b, pfx, reached)
+			}
+		}(b, pfx)
 		for _, r := range rets {
 			if r.Block() == pfx.Recover || len(r.Results) != 1 {
 				continue
 			}
 			pc := &prefixCheck{c: c, b: b}
 			pc.value(r.Results[0], ri, 0)
+			for p := range pc.params {
+				reached[p] = true
+			}
+			if len(pc.addr)+len(pc.bad)+len(pc.und) > 0 || pc.srcs == 0 {
+				clean = false
+			}
 			switch {
 			case len(pc.addr) > 0:
 				c.Violation(pfx, P.InstrPos(r), "prefix derived from a memory address",
@@ -1735,4 +1762,45 @@ func absFailedAt(p *ssa.Parameter, st ssa.Instruction) bool {
 		}
 	}
 	return false
+}
+
+// prefixCoversCtorParams: every string parameter of a constructor of the
+// backend (a function that builds a fresh value of the type and fills its
+// fields) selects where the objects live — endpoint, bucket, prefix, path —
+// and must flow into the identity NodeURLPrefix reports; otherwise two stores
+// differing only in that parameter share the keys of a common NodeCache.
+func prefixCoversCtorParams(c *Ctx, b backendImpl, pfx *ssa.Function, reached map[*ssa.Parameter]bool) {
+	P := c.P
+	ctors := map[*ssa.Function]bool{}
+	st, _ := b.named.Underlying().(*types.Struct)
+	if st == nil {
+		return
+	}
+	for i := 0; i < st.NumFields(); i++ {
+		for _, s := range fieldStoresOf(c, b, st.Field(i).Name()) {
+			fn := s.Parent()
+			fa := s.Addr.(*ssa.FieldAddr)
+			if _, fresh := fa.X.(*ssa.Alloc); fresh && fn.Signature.Recv() == nil && fn.Parent() == nil {
+				ctors[fn] = true
+			}
+		}
+	}
+	var list []*ssa.Function
+	for fn := range ctors {
+		list = append(list, fn)
+	}
+	sort.Slice(list, func(i, j int) bool { return list[i].Pos() < list[j].Pos() })
+	for _, fn := range list {
+		for _, p := range fn.Params {
+			if !isStringType(p.Type()) {
+				continue
+			}
+			if reached[p] {
+				c.OK(P.Pos(fn.Pos()), "parameter "+p.Name()+" of "+ir.FuncName(fn), "flows into the identity reported by NodeURLPrefix", false)
+				continue
+			}
+			c.Violation(fn, P.Pos(fn.Pos()), "prefix ignores parameter "+p.Name(),
+				fmt.Sprintf("the identity %s reports does not depend on parameter %s of %s: two stores that differ only in it (another service, bucket, key prefix or directory) share the keys of a common NodeCache, and a node flushed to one is never written to the other", ir.FuncName(pfx), p.Name(), ir.FuncName(fn)))
+		}
+	}
 }
